@@ -327,6 +327,33 @@ def rule_name1(A: Analysis, rep):
     rep.expect_min("NAME1", 6)
 
 
+def rule_ar5(A: Analysis, rep):
+    """cond archive deletes the output file only if this invocation may have created it: the refusal to overwrite an
+    existing file (OutputFileExists) is decided before — outside — the try block whose handler unlinks the output path.
+    Otherwise a refused (or otherwise failed) archive removes the file that was already there: an earlier archive, or a
+    file inside a task output."""
+    fi = A.fn("cli.archive.main")
+    tries = [t for t in walk_local(fi.node) if isinstance(t, ast.Try) and any(
+        isinstance(c, ast.Call) and isinstance(c.func, ast.Attribute) and c.func.attr == "unlink" and "output" in norm(c.func.value) and "index" not in norm(c.func.value)
+        for h in t.handlers for b in h.body for c in ast.walk(b))]
+    raisers = {f.fq for f in A.prog.scan_functions if any(isinstance(r, ast.Raise) and r.exc is not None and "OutputFileExists" in norm(r.exc) for r in walk_local(f.node))}
+    if len(tries) != 1 or not raisers:
+        raise AnalysisError("AR5: anchors not found (try with unlink handler=%d, functions raising OutputFileExists=%d)" % (len(tries), len(raisers)))
+    t = tries[0]
+    body_nodes = [x for b in t.body for x in ast.walk(b)]
+    inside = set()
+    if any(isinstance(r, ast.Raise) and r.exc is not None and "OutputFileExists" in norm(r.exc) for r in body_nodes):
+        inside.add(fi.fq)
+    reach = A.cg.reachable_from_nodes(list(t.body), fi)
+    inside |= (reach & raisers)
+    rep.check(not inside, "AR5", "an existing output file is refused before the clean-up handler is armed", t,
+              "OutputFileExists is raised outside the try whose handler unlinks the output path",
+              "%s can raise OutputFileExists inside the try block whose handler unlinks the output path: the file that already existed is deleted" % sorted(x.replace("conductor.", "") for x in inside))
+    # and the refusal still exists on the way to the try
+    before = A.cg.reachable([fi.fq]) & raisers
+    rep.check(bool(before), "AR5", "overwriting an existing file is refused", fi.node, "", "cond archive no longer refuses to overwrite an existing file", deep=False)
+
+
 def rule_ar1(A: Analysis, rep):
     fi = A.fn("cli.archive.main")
     g = A.cfg(fi, "plain")
